@@ -45,6 +45,7 @@ class ExecSide(object):
         for i in range(n):
             sc = X.gen_scenario(rng)
             yield {'kind': KIND, 'sc': dict(sc, sched=X.gen_sched(rng, sc))}
+        yield {'kind': KIND, 'sc': X.big_case(103, rng)}      # more than one bulk (100) of the watcher's pulls
         for f in X.FAULTS:
             for to in (False, True):
                 for named in (False, True):
